@@ -3,6 +3,7 @@ CONSTANTS
   Configs <- SelectConfigs
   Fixed = TRUE
   AllowForeignClose = FALSE
+  AllowCancel = TRUE
 VIEW View
 INVARIANT PacketBoundary
 INVARIANT NoStaleOutput
